@@ -33,13 +33,13 @@ type cacheKeyed struct {
 }
 
 type execOp struct {
-	kind    int // 0 Exec shared template, 1 Parse+Exec, 2 Render, 3 CacheSet+Render, 4 Clone+Exec, 5 page then layout with ONE context, 6 NewTemplate+Exec inside the task
+	kind    int // 0 Exec shared template, 1 Parse+Exec, 2 Render, 3 CacheSet+Render, 4 Clone+Exec, 5 page then layout with ONE context, 6 NewTemplate+Exec inside the task, 7 RenderR
 	prog    int
 	variant int
 }
 
 func (o execOp) String() string {
-	k := [...]string{"Exec(shared template)", "Parse+Exec", "Render", "CacheSet(NewTemplate)+Render", "Clone+Exec", "Exec(page) then Exec(layout) with the same context", "NewTemplate+Exec (parsed by the task itself)"}[o.kind]
+	k := [...]string{"Exec(shared template)", "Parse+Exec", "Render", "CacheSet(NewTemplate)+Render", "Clone+Exec", "Exec(page) then Exec(layout) with the same context", "NewTemplate+Exec (parsed by the task itself)", "RenderR (text from a reader)"}[o.kind]
 	return fmt.Sprintf("%s prog %d data %d", k, o.prog, o.variant)
 }
 
@@ -176,9 +176,9 @@ func c14ExecRun(t *rapid.T) {
 			case 4:
 				o.kind = 6
 			case 1, 2:
-				o.kind = []int{0, 0, 0, 4, 1, 5, 5}[uni(t, "kind", 7)]
+				o.kind = []int{0, 0, 0, 4, 1, 5, 5, 7}[uni(t, "kind", 8)]
 			default:
-				o.kind = []int{1, 2, 2, 3}[uni(t, "kind", 4)]
+				o.kind = []int{1, 2, 2, 3, 7, 7}[uni(t, "kind", 6)]
 			}
 			plan[i] = append(plan[i], o)
 		}
@@ -311,6 +311,8 @@ func c14ExecRun(t *rapid.T) {
 						input = tm.Input
 						out, err = safeExec(tm, ctx)
 					}
+				case 7:
+					out, err = safeRenderR(&chunkReader{s: p.Main, sizes: []int{1 + (i+x)%7, 64, 5}}, ctx)
 				case 2:
 					out, err = safeRender(p.Main, ctx)
 				case 3:
